@@ -209,4 +209,89 @@ theorem ntopStore_spec (text dst : Bytes) (size : Nat) (hsz : size ≤ dst.lengt
     have h2 : min text.length (size - 1) = text.length := by omega
     rw [h1, h2]
 
+/-! ## pton6: sixteen bytes -/
+
+def p6ok (st : P6) : Prop :=
+  st.out.length ≤ 16 ∧ (∀ cp, st.colonp = some cp → cp ≤ st.out.length) ∧ st.val ≤ 0xffff
+
+theorem pton6Go_ok (st st' : P6) (s : Bytes) (h : pton6Go st s = some st') (hok : p6ok st) : p6ok st' := by
+  induction s generalizing st with
+  | nil =>
+    simp only [pton6Go, Option.some.injEq] at h
+    subst h; exact hok
+  | cons c rest ih =>
+    obtain ⟨h1, h2, h3⟩ := hok
+    unfold pton6Go at h
+    cases hx : hexVal? c with
+    | some d =>
+      simp only [hx] at h
+      split at h
+      · cases h
+      · split at h
+        · cases h
+        · next hv =>
+          exact ih _ h ⟨h1, h2, by simp only; omega⟩
+    | none =>
+      simp only [hx] at h
+      split at h
+      · split at h
+        · split at h
+          · cases h
+          · exact ih _ h ⟨h1, by intro cp hcp; simp only [Option.some.injEq] at hcp; subst hcp; exact Nat.le_refl _, h3⟩
+        · split at h
+          · cases h
+          · split at h
+            · cases h
+            · next hlen =>
+              refine ih _ h ⟨by simp only [List.length_append, List.length_cons, List.length_nil]; omega, ?_, by simp⟩
+              intro cp hcp
+              have := h2 cp hcp
+              simp only [List.length_append, List.length_cons, List.length_nil]; omega
+      · split at h
+        · next hdot =>
+          cases hp : pton4 st.curtok with
+          | none => simp only [hp] at h; cases h
+          | some v =>
+            simp only [hp, Option.some.injEq] at h
+            subst h
+            have hv := (pton4_sound _ _ hp).1
+            refine ⟨by simp only [List.length_append]; omega, ?_, h3⟩
+            intro cp hcp
+            have := h2 cp hcp
+            simp only [List.length_append]; omega
+        · cases h
+
+theorem pton6_sound (s v : Bytes) (h : pton6 s = some v) : v.length = 16 := by
+  unfold pton6 at h
+  simp only at h
+  split at h
+  · cases h
+  · next s0 hs0 =>
+    cases hg : pton6Go ⟨[], none, s0, false, 0, 0⟩ s0 with
+    | none => simp only [hg] at h; cases h
+    | some st =>
+      simp only [hg] at h
+      have hok : p6ok st := pton6Go_ok _ _ _ hg ⟨by simp, by simp, by simp⟩
+      obtain ⟨h1, h2, h3⟩ := hok
+      split at h
+      · cases h
+      · next out hfin =>
+        have hout : out.length ≤ 16 ∧ st.out.length ≤ out.length := by
+          split at hfin
+          · split at hfin
+            · cases hfin
+            · cases hfin; simp; omega
+          · cases hfin; exact ⟨h1, Nat.le_refl _⟩
+        split at h
+        · next cp hcp =>
+          split at h
+          · cases h
+          · cases h
+            have := h2 cp hcp
+            simp only [List.length_append, List.length_take, List.length_replicate, List.length_drop]
+            omega
+        · split at h
+          · cases h
+          · next hne => cases h; simpa using hne
+
 end UsualProofs.C14
